@@ -43,6 +43,9 @@ def run(eng, rep) -> None:
     rep.rule("R01.7", "no module-level mutable state is read-and-written on the codec path")
     rep.rule("R01.9", "no bound method object is tested for truth on the codec path (`type.is_signed` for `type.is_signed()` is always true)")
     rep.rule("R01.8", "container decoders obtain every element through the type dispatcher; a direct read is admissible only for element classes whose handler returns the raw word")
+    rep.rule("R01.11", "a work-list walk of the codec puts every expansion back at the end it takes from (one order for all constructors)")
+    from .lints import mixed_worklist_ends
+    mixed_worklist_ends(eng, rep, "R01.11", ("fcp.serde",), "its bytes are written (or read) after the fields that follow it, which is not the canonical order")
     rep.rule("R01.10", "a key that stands for a schema type on the codec path reads every field that tells two types apart")
     from .lints import type_identity_keys
     type_identity_keys(eng, rep, "R01.10", ("fcp.serde",))
